@@ -3,4 +3,5 @@ pub mod findings;
 pub mod mutate;
 pub mod refthrift;
 pub mod shrink;
+pub mod tsyn;
 pub mod tval;
